@@ -144,6 +144,18 @@ Fixpoint labels_of (l : list sink) : list string :=
   | _ :: r => labels_of r
   end.
 
+(* ------------------------------------------------------------------ the mode of a key file *)
+(* ioutil.WriteFile(path, data, perm): a file that is already there keeps its mode (perm is used only
+   when the file is created, masked by the umask) *)
+Definition write_file (existing : option N) (umask perm : N) : N :=
+  match existing with Some m => m | None => N.ldiff perm umask end.
+(* the client's private-key files: the mode of a file that is already there is set to 0600 before
+   the key is written into it *)
+Definition write_private (existing : option N) (umask : N) : N :=
+  write_file (match existing with Some _ => Some 384 | None => None end) umask 384.
+(* accessible to group or others *)
+Definition others_bits (m : N) : N := N.land m 63.
+
 (* ------------------------------------------------------------------ the agent *)
 
 Record entry := mkEntry { e_comment : bs; e_blob : bs; e_cert : bool }.
